@@ -454,8 +454,8 @@ _ROLE_CACHE = {}
 def convention_roles(repo: Repo):
     """{(role, uses_push_pop): [sites]} for the four roles of the calling convention."""
     from ..emit import collect_sites
-    if id(repo) in _ROLE_CACHE:
-        return _ROLE_CACHE[id(repo)]
+    if id(repo) in _ROLE_CACHE and _ROLE_CACHE[id(repo)][0] is repo:
+        return _ROLE_CACHE[id(repo)][1]
     g = repo.mod("generate_code")
     hs = repo.handlers()
     for need in ("Call", "Return"):
@@ -488,7 +488,7 @@ def convention_roles(repo: Repo):
                         pol = p
                 if pol is conv:
                     out[(role, conv)].append(s)
-    _ROLE_CACHE[id(repo)] = out
+    _ROLE_CACHE[id(repo)] = (repo, out)
     return out
 
 
